@@ -13,7 +13,9 @@ P("C15",
              "and from any reachable state every record leaves within (stages-1-stage)+cycles ready ticks (c15_eventually_leaves); "
              "a one-lane pipeline is FIFO (c15_fifo_width1). c15_single_stage_dwell_old_refuted is the regression lemma for the "
              "pre-fix code. The model (two-phase Tick with swap removal, occupancy passes) is compared round by round with "
-             "queueing.Pipeline (accept flags, pushes, moved flag, Stages() snapshot).",
+             "queueing.Pipeline (accept flags, pushes, moved flag, Stages() snapshot). holds_on evaluates lane exclusivity, per-round "
+             "conservation, latency (lower bound always, exact under ready rounds), progress from every observed snapshot and FIFO on the "
+             "implementation's observations; the link theorem is proved for the lane and FIFO clauses (c15_model_agreement_implies_property_partial).",
   level_note="Trusted: Coq kernel + vm_compute; the Go harness (scripted sink); the hand-written model of pipeline.go. "
              "Accept without a free lane is outside the API contract and not modelled; JSON restore of hand-made states is out of scope.",
   quick_shards=8,
